@@ -312,7 +312,7 @@ def gen_random(ctx, count):
 def gen_inf(ctx, count):
     rng = ctx.rng
     for i in range(count):
-        rows, cols = rng.randint(1, 4), rng.randint(1, 4)
+        rows, cols = rng.randint(1, 5), rng.randint(1, 5)
         data = [[rng.choice([0.0, 1.0, float('inf'), float('-inf'), NAN, 1.0]) for _ in range(cols)] for _ in range(rows)]
         yield 'inf(correspondence only)', dict(n=rng.choice([4, 8]), dtype='float64', data=data, inf=True)
 
@@ -351,13 +351,13 @@ def run(ctx):
         run_cases(ctx, gen_exhaustive(ctx, 6), light=True)
         run_cases(ctx, gen_shapes(ctx))
         run_cases(ctx, gen_random(ctx, 400))
-        run_cases(ctx, gen_inf(ctx, 40))
+        run_cases(ctx, gen_inf(ctx, 800))
     else:
         run_cases(ctx, gen_exhaustive(ctx, 9), light=True)
         run_cases(ctx, gen_exhaustive(ctx, 16, alphabet=(0.0, 1.0), shapes=[(3, 4), (4, 3), (4, 4), (2, 7), (7, 2)]), light=True)
         run_cases(ctx, gen_shapes(ctx))
         run_cases(ctx, gen_random(ctx, 6000))
-        run_cases(ctx, gen_inf(ctx, 400))
+        run_cases(ctx, gen_inf(ctx, 6000))
     ctx.exhaustive = False
 
 
